@@ -1,6 +1,7 @@
 package main
 
 import (
+	"sort"
 	"fmt"
 	"go/token"
 	"go/types"
@@ -188,7 +189,20 @@ func runVF08(p *Prog, r *RuleRun) {
 							good = false
 						}
 					case *ssa.Const:
-						// only StoreLogs may return a constant nil (early exit / success after bookkeeping)
+						// a constant nil error is the inner call's error where that one is known to be nil;
+						// beyond that only StoreLogs may return a constant nil (early exit / success after bookkeeping)
+						var innerRes ssa.Value = c
+						if c.Call.Signature().Results().Len() > 1 {
+							innerRes = nil
+							for _, ref := range *c.Referrers() {
+								if ex, ok := ref.(*ssa.Extract); ok && ex.Index == i {
+									innerRes = ex
+								}
+							}
+						}
+						if x.IsNil() && innerRes != nil && isErrorType(innerRes.Type()) && nilnessAt(fn, innerRes, b, true) {
+							break
+						}
 						if m != "StoreLogs" || !x.IsNil() {
 							good = false
 						}
@@ -224,6 +238,35 @@ func runVF08(p *Prog, r *RuleRun) {
 	}
 }
 
+// nilnessAt: is block at dominated by the edge of a test `v ==/!= nil` on which v is nil (wantNil) / non-nil?
+func nilnessAt(fn *ssa.Function, v ssa.Value, at *ssa.BasicBlock, wantNil bool) bool {
+	for _, b := range fn.Blocks {
+		ifi, ok := b.Instrs[len(b.Instrs)-1].(*ssa.If)
+		if !ok {
+			continue
+		}
+		bo, ok := ifi.Cond.(*ssa.BinOp)
+		if !ok || bo.X != v || (bo.Op != token.NEQ && bo.Op != token.EQL) {
+			continue
+		}
+		if c, ok := bo.Y.(*ssa.Const); !ok || !c.IsNil() {
+			continue
+		}
+		nilEdge, nonNilEdge := b.Succs[0], b.Succs[1]
+		if bo.Op == token.NEQ {
+			nilEdge, nonNilEdge = nonNilEdge, nilEdge
+		}
+		edge := nonNilEdge
+		if wantNil {
+			edge = nilEdge
+		}
+		if len(edge.Preds) == 1 && edge.Dominates(at) {
+			return true
+		}
+	}
+	return false
+}
+
 // ---------------------------------------------------------------- VF-09
 
 func runVF09(p *Prog, r *RuleRun) {
@@ -242,7 +285,160 @@ func runVF09(p *Prog, r *RuleRun) {
 		}
 		return fieldOfAddr(fa).Name(), true
 	}
-	nStores := 0
+	uv := p.Func("verifier", "LogStore.updateVerifyState")
+	if uv == nil {
+		r.Unknown("anchor:updateVerifyState", "?", "not found")
+		return
+	}
+	// Path-sensitive part: walk updateVerifyState (helpers inlined) with two typestates,
+	// cp = result of the configured checkpoint predicate, ext = len(log.Extensions) == 0.
+	isExtLen := func(v ssa.Value) bool {
+		lc, ok := v.(*ssa.Call)
+		return ok && isBuiltinCall(lc, "len") && fieldLoadName(lc.Call.Args[0]) == "Extensions"
+	}
+	visited := map[*ssa.Store]bool{}
+	nDecode := 0
+	spec := &OrdSpec{Name: "verifier-extensions",
+		Call: func(cx *Ctx, ci ssa.CallInstruction) CallInfo {
+			cc := ci.Common()
+			if _, isB := cc.Value.(*ssa.Builtin); isB {
+				return CallInfo{}
+			}
+			if cc.StaticCallee() == nil && !cc.IsInvoke() {
+				if rs := cc.Signature().Results(); rs.Len() == 2 && types.Identical(rs.At(0).Type(), types.Typ[types.Bool]) && isErrorType(rs.At(1).Type()) {
+					return CallInfo{Event: "ISCP", Primitive: true}
+				}
+				return CallInfo{Primitive: true}
+			}
+			if callee := cc.StaticCallee(); callee != nil && pkgRelOf(p, callee) == "verifier" && cc.Signature().Results().Len() == 3 &&
+				len(cc.Args) == 1 && fieldLoadName(cc.Args[0]) == "Extensions" {
+				return CallInfo{Event: "DECODE", Primitive: true}
+			}
+			if callee := cc.StaticCallee(); callee != nil && pkgRelOf(p, callee) != "verifier" {
+				return CallInfo{Primitive: true, Infallible: resultErrIndex(cc.Signature()) < 0}
+			}
+			return CallInfo{}
+		},
+		Value: func(cx *Ctx, v ssa.Value, f *Fact) (AV, bool) {
+			if c, ok := v.(*ssa.Call); ok {
+				cc := c.Common()
+				if _, isB := cc.Value.(*ssa.Builtin); !isB && cc.StaticCallee() == nil && !cc.IsInvoke() && cc.Signature().Results().Len() == 2 {
+					cur := cx.Eval(v, f)
+					if cur.K == avTuple && len(cur.Tup) == 2 {
+						cur.Tup[0].Tag = "~iscp"
+						return cur, true
+					}
+				}
+			}
+			return AV{}, false
+		},
+		OnBranch: func(cx *Ctx, ifi *ssa.If, truth bool, f *Fact) {
+			cond := ifi.Cond
+			for {
+				u, ok := cond.(*ssa.UnOp)
+				if !ok || u.Op != token.NOT {
+					break
+				}
+				cond, truth = u.X, !truth
+			}
+			if cx.Eval(cond, f).Tag == "~iscp" {
+				f.TS["cp"] = map[bool]string{true: "yes", false: "no"}[truth]
+				return
+			}
+			bo, ok := cond.(*ssa.BinOp)
+			if !ok {
+				return
+			}
+			x, y, op := bo.X, bo.Y, bo.Op
+			if isExtLen(y) {
+				x, y = y, x
+				op = map[token.Token]token.Token{token.LSS: token.GTR, token.GTR: token.LSS, token.LEQ: token.GEQ, token.GEQ: token.LEQ, token.EQL: token.EQL, token.NEQ: token.NEQ}[op]
+			}
+			c, isC := y.(*ssa.Const)
+			if !isExtLen(x) || !isC {
+				return
+			}
+			var emptyWhenTrue bool
+			switch {
+			case c.Int64() == 0 && (op == token.EQL || op == token.LEQ):
+				emptyWhenTrue = true
+			case c.Int64() == 0 && (op == token.NEQ || op == token.GTR):
+				emptyWhenTrue = false
+			case c.Int64() == 1 && op == token.LSS:
+				emptyWhenTrue = true
+			case c.Int64() == 1 && op == token.GEQ:
+				emptyWhenTrue = false
+			default:
+				return
+			}
+			now := "nonempty"
+			if emptyWhenTrue == truth {
+				now = "empty"
+			}
+			if was := f.TS["ext"]; was != "" && was != now {
+				f.TS["infeasible"] = "len(Extensions) tested both ways"
+				return
+			}
+			f.TS["ext"] = now
+		},
+		Instr: func(cx *Ctx, ins ssa.Instruction, f *Fact) {
+			st, ok := ins.(*ssa.Store)
+			if !ok {
+				return
+			}
+			fname, ok := isRaftLogField(st.Addr)
+			if !ok {
+				return
+			}
+			visited[st] = true
+			if f.TS["infeasible"] != "" {
+				return
+			}
+			key := cx.Key(ins, "store(raft.Log."+fname+")")
+			if fname != "Extensions" {
+				r.Fail(key, posOf(p, st), "the verifier modifies raft.Log."+fname+" of an entry on its way to the store: entries must be stored unchanged")
+				return
+			}
+			r.Check(f.TS["cp"] == "yes" && f.TS["ext"] == "empty", key, posOf(p, st), "Extensions is written only for a checkpoint whose Extensions are empty (the leader's new checkpoint)",
+				fmt.Sprintf("the verifier overwrites raft.Log.Extensions outside the only allowed case (is-checkpoint=%q, len(Extensions)==0: %q): replicated or foreign extension data would be clobbered; path: %s", f.TS["cp"], f.TS["ext"], trace(f)))
+			if f.TS["cp"] == "yes" && f.TS["ext"] == "empty" {
+				f.TS["stamped"] = "1"
+				f.TS["ext"] = "nonempty" // it now carries the metadata
+			}
+		},
+		OnEvent: func(cx *Ctx, ev, phase string, ins ssa.Instruction, f *Fact) {
+			if ev == "DECODE" && f.TS["infeasible"] == "" {
+				switch phase {
+				case "call":
+					nDecode++
+					r.Check(f.TS["cp"] == "yes" && f.TS["ext"] == "nonempty", cx.Key(ins, "decode"), posOf(p, ins), "the replicated metadata is decoded only for a checkpoint that carries Extensions",
+						fmt.Sprintf("checkpoint metadata is decoded outside the follower case (is-checkpoint=%q, Extensions %q)", f.TS["cp"], f.TS["ext"]))
+				case "fail":
+					f.TS["decodefail"] = "1"
+				}
+			}
+		},
+		OnReturn: func(cx *Ctx, ret *ssa.Return, class RetClass, f *Fact) {
+			key := cx.Key(ret, "return")
+			switch {
+			case f.TS["infeasible"] != "":
+			case f.TS["decodefail"] == "1":
+				r.Check(class == RetFailure, key, posOf(p, ret), "a checkpoint whose Extensions cannot be decoded as verifier metadata is refused with an error",
+					"the error of decoding a checkpoint's non-empty Extensions is not returned on this path: foreign extension data is silently treated as a checkpoint; path: "+trace(f))
+			case class == RetSuccess && f.TS["cp"] == "yes" && (f.TS["ext"] == "empty" || f.TS["stamped"] == "1"):
+				r.Check(f.TS["stamped"] == "1", key, posOf(p, ret), "the leader's new checkpoint receives its verification metadata",
+					"a new checkpoint (empty Extensions) is accepted without the verification metadata being written to its Extensions: followers cannot verify the range; path: "+trace(f))
+			}
+		}}
+	eng := newOrdEngine(p, spec)
+	if len(eng.RunRoot(uv, nil)) == 0 {
+		r.Unknown("root", p.Position(uv.Pos()), "no exit reached")
+	}
+	finishEngine(r, eng)
+	if nDecode == 0 {
+		r.Fail(funcDisplay(uv)+":foreign-extensions", p.Position(uv.Pos()), "a follower never decodes the checkpoint metadata carried in Extensions")
+	}
+	// Sweep: no other store to a raft.Log field anywhere on the StoreLogs path of the verifier
 	ord := ordinal{}
 	for fn := range p.reachableFuncs(root) {
 		if pkgRelOf(p, fn) != "verifier" {
@@ -251,84 +447,18 @@ func runVF09(p *Prog, r *RuleRun) {
 		for _, b := range fn.Blocks {
 			for _, ins := range b.Instrs {
 				st, ok := ins.(*ssa.Store)
-				if !ok {
+				if !ok || visited[st] {
 					continue
 				}
-				fname, ok := isRaftLogField(st.Addr)
-				if !ok {
-					continue
+				if fname, ok := isRaftLogField(st.Addr); ok {
+					r.Fail(ord.next(funcDisplay(fn)+":stray-store(raft.Log."+fname+")"), posOf(p, st), "the verifier writes raft.Log."+fname+" outside the checked checkpoint-stamping path")
 				}
-				nStores++
-				key := ord.next(funcDisplay(fn) + ":store(raft.Log." + fname + ")")
-				if fname != "Extensions" {
-					r.Fail(key, posOf(p, st), "the verifier modifies raft.Log."+fname+" of an entry on its way to the store: entries must be stored unchanged")
-					continue
-				}
-				// dominated by: checkpoint predicate true, and len(Extensions) == 0 true
-				emptyExt, isCP := false, false
-				for _, g := range fn.Blocks {
-					ifi, ok := g.Instrs[len(g.Instrs)-1].(*ssa.If)
-					if !ok {
-						continue
-					}
-					for side, succ := range g.Succs {
-						if !(succ == b || succ.Dominates(b)) || len(succ.Preds) != 1 {
-							continue
-						}
-						truth := side == 0
-						if bo, ok := ifi.Cond.(*ssa.BinOp); ok && bo.Op == token.EQL && truth {
-							if c, ok := bo.Y.(*ssa.Const); ok && c.Int64() == 0 {
-								if lc, ok := bo.X.(*ssa.Call); ok && isBuiltinCall(lc, "len") && fieldLoadName(lc.Call.Args[0]) == "Extensions" {
-									emptyExt = true
-								}
-							}
-						}
-						if ex, ok := ifi.Cond.(*ssa.Extract); ok && ex.Index == 0 && truth {
-							if c, ok := ex.Tuple.(*ssa.Call); ok && c.Call.StaticCallee() == nil && !c.Call.IsInvoke() {
-								isCP = true // result of the configured checkpoint predicate
-							}
-						}
-					}
-				}
-				r.Check(emptyExt && isCP, key, posOf(p, st), "Extensions is written only for a checkpoint whose Extensions are empty (the leader's new checkpoint)",
-					fmt.Sprintf("the verifier overwrites raft.Log.Extensions outside the only allowed case (is-checkpoint=%v and len(Extensions)==0=%v): replicated or foreign extension data would be clobbered", isCP, emptyExt))
 			}
 		}
 	}
-	if nStores == 0 {
+	if len(visited) == 0 {
 		r.Fail(funcDisplay(root)+":store(raft.Log.Extensions)", p.Position(root.Pos()), "the leader's checkpoint never receives its verification metadata")
 	}
-	// foreign/undecodable extensions: the decode error is returned
-	uv := p.Func("verifier", "LogStore.updateVerifyState")
-	if uv == nil {
-		r.Unknown("anchor:updateVerifyState", "?", "not found")
-		return
-	}
-	returned := false
-	for _, b := range uv.Blocks {
-		for _, ins := range b.Instrs {
-			c, ok := ins.(*ssa.Call)
-			if !ok || c.Call.StaticCallee() == nil || c.Call.Signature().Results().Len() != 3 || pkgRelOf(p, c.Call.StaticCallee()) != "verifier" {
-				continue
-			}
-			if fieldLoadName(c.Call.Args[0]) != "Extensions" {
-				continue
-			}
-			for _, ref := range *c.Referrers() {
-				ex, ok := ref.(*ssa.Extract)
-				if !ok || ex.Index != 2 {
-					continue
-				}
-				for _, r2 := range *ex.Referrers() {
-					if ret, ok := r2.(*ssa.Return); ok && ret.Results[len(ret.Results)-1] == ex {
-						returned = true
-					}
-				}
-			}
-		}
-	}
-	r.Check(returned, funcDisplay(uv)+":foreign-extensions", p.Position(uv.Pos()), "a checkpoint whose Extensions cannot be decoded as verifier metadata is refused with the decode error",
-		"the error of decoding a checkpoint's non-empty Extensions is not returned: foreign extension data is silently treated as a checkpoint")
 }
 
 // ---------------------------------------------------------------- ORD-24
@@ -512,61 +642,13 @@ func runVF21(p *Prog, r *RuleRun) {
 		pt, ok := t.(*types.Pointer)
 		return ok && isNamed(pt.Elem(), ModPath+"/verifier", "VerificationReport")
 	}
-	// the per-entry report: a pointer-to-report result of a verifier helper called in the entry loop
-	var reports []ssa.Value
-	for _, b := range sl.Blocks {
-		for _, ins := range b.Instrs {
-			ex, ok := ins.(*ssa.Extract)
-			if !ok || !isReportPtr(ex.Type()) {
-				continue
-			}
-			if c, ok := ex.Tuple.(*ssa.Call); ok && c.Call.StaticCallee() != nil && pkgRelOf(p, c.Call.StaticCallee()) == "verifier" {
-				reports = append(reports, ex)
-			}
-		}
-	}
-	pos := p.Position(sl.Pos())
-	if len(reports) == 0 {
-		r.Unknown(funcDisplay(sl)+":report-source", pos, "no per-entry verification report found in StoreLogs")
-		return
-	}
-	// (1) each report flows into an append (accumulated) or straight into the hand-off within the same iteration
-	accumulated := false
-	for _, b := range sl.Blocks {
-		for _, ins := range b.Instrs {
-			c, ok := ins.(*ssa.Call)
-			if !ok || !isBuiltinCall(c, "append") {
-				continue
-			}
-			sli, ok := c.Call.Args[1].(*ssa.Slice)
-			if !ok {
-				continue
-			}
-			arr, ok := sli.X.(*ssa.Alloc)
-			if !ok {
-				continue
-			}
-			for _, ref := range *arr.Referrers() {
-				ia, ok := ref.(*ssa.IndexAddr)
-				if !ok {
-					continue
-				}
-				for _, r2 := range *ia.Referrers() {
-					st, ok := r2.(*ssa.Store)
-					if !ok {
-						continue
-					}
-					val := st.Val
-					if u, ok := val.(*ssa.UnOp); ok && u.Op == token.MUL {
-						val = u.X
-					}
-					for _, rep := range reports {
-						if val == rep {
-							accumulated = true
-						}
-					}
-				}
-			}
+	// the per-entry report: a pointer-to-report result of a verifier helper called in the entry loop.
+	// StoreLogs may do the bookkeeping itself or in helpers: each function on its path that receives such a
+	// report must accumulate it (append), hand it off inside the loop, or pass it on to its own caller.
+	cands := []*ssa.Function{sl}
+	for fn := range p.reachableFuncs(sl) {
+		if fn != sl && pkgRelOf(p, fn) == "verifier" {
+			cands = append(cands, fn)
 		}
 	}
 	isHandoff := func(fn *ssa.Function) bool {
@@ -586,29 +668,124 @@ func runVF21(p *Prog, r *RuleRun) {
 		}
 		return false
 	}
-	direct, looped := false, false
-	for _, b := range sl.Blocks {
-		for _, ins := range b.Instrs {
-			c, ok := ins.(*ssa.Call)
-			if !ok || !isHandoff(c.Call.StaticCallee()) {
-				continue
+	pos := p.Position(sl.Pos())
+	nSources := 0
+	accumulated, direct, looped := false, false, false
+	var lost []string
+	for _, fn := range cands {
+		var reports []ssa.Value
+		for _, b := range fn.Blocks {
+			for _, ins := range b.Instrs {
+				ex, ok := ins.(*ssa.Extract)
+				if !ok || !isReportPtr(ex.Type()) {
+					continue
+				}
+				if c, ok := ex.Tuple.(*ssa.Call); ok && c.Call.StaticCallee() != nil && pkgRelOf(p, c.Call.StaticCallee()) == "verifier" {
+					reports = append(reports, ex)
+				}
 			}
-			if reachesBlock(b, b) {
-				looped = true
+		}
+		isReport := func(v ssa.Value) bool {
+			for _, rep := range reports {
+				if v == rep {
+					return true
+				}
+				// through the result-parameter cell / a phi of the loop
+				if phi, ok := v.(*ssa.Phi); ok {
+					for _, e := range phi.Edges {
+						if e == rep {
+							return true
+						}
+					}
+				}
 			}
-			for _, a := range c.Call.Args {
-				if u, ok := a.(*ssa.UnOp); ok && u.Op == token.MUL {
-					for _, rep := range reports {
-						if u.X == rep {
-							direct = true
+			return false
+		}
+		nSources += len(reports)
+		fnAcc, fnDirect, fnPass := false, false, false
+		for _, b := range fn.Blocks {
+			for _, ins := range b.Instrs {
+				switch c := ins.(type) {
+				case *ssa.Call:
+					if isBuiltinCall(c, "append") {
+						sli, ok := c.Call.Args[1].(*ssa.Slice)
+						if !ok {
+							continue
+						}
+						arr, ok := sli.X.(*ssa.Alloc)
+						if !ok {
+							continue
+						}
+						for _, ref := range *arr.Referrers() {
+							ia, ok := ref.(*ssa.IndexAddr)
+							if !ok {
+								continue
+							}
+							for _, r2 := range *ia.Referrers() {
+								st, ok := r2.(*ssa.Store)
+								if !ok {
+									continue
+								}
+								val := st.Val
+								if u, ok := val.(*ssa.UnOp); ok && u.Op == token.MUL {
+									val = u.X
+								}
+								if isReport(val) {
+									fnAcc = true
+								}
+							}
+						}
+						continue
+					}
+					if !isHandoff(c.Call.StaticCallee()) {
+						continue
+					}
+					if reachesBlock(b, b) {
+						looped = true
+					}
+					for _, a := range c.Call.Args {
+						if u, ok := a.(*ssa.UnOp); ok && u.Op == token.MUL && isReport(u.X) && reachesBlock(b, b) {
+							fnDirect = true
+						}
+					}
+				case *ssa.Return:
+					for _, res := range c.Results {
+						if isReport(res) {
+							fnPass = true
+						}
+					}
+				case *ssa.Store:
+					// named result cell of a function that passes the report on
+					if al, ok := c.Addr.(*ssa.Alloc); ok && isReport(c.Val) && isReportPtr(al.Type().(*types.Pointer).Elem()) {
+						for _, rb := range fn.Blocks {
+							if ret, ok := rb.Instrs[len(rb.Instrs)-1].(*ssa.Return); ok {
+								for _, res := range ret.Results {
+									if u, ok := res.(*ssa.UnOp); ok && u.X == al {
+										fnPass = true
+									}
+								}
+							}
 						}
 					}
 				}
 			}
 		}
+		accumulated = accumulated || fnAcc
+		direct = direct || fnDirect
+		if len(reports) > 0 && !fnAcc && !fnDirect && !fnPass {
+			lost = append(lost, funcDisplay(fn))
+		}
+	}
+	if nSources == 0 {
+		r.Unknown(funcDisplay(sl)+":report-source", pos, "no per-entry verification report found on the StoreLogs path")
+		return
+	}
+	sort.Strings(lost)
+	if len(lost) > 0 {
+		accumulated, direct = false, false
 	}
 	r.Check(accumulated || (direct && looped), funcDisplay(sl)+":reports-accumulated", pos, "each checkpoint's report is appended to the batch's list (or handed off inside the entry loop)",
-		"the per-entry verification report is kept in a single variable that later checkpoints of the same batch overwrite: only the last checkpoint of a batch is handed to the verifier, earlier ones are neither verified nor counted as dropped")
+		strings.Join(lost, ", ")+": the per-entry verification report is kept in a single variable that later checkpoints of the same batch overwrite: only the last checkpoint of a batch is handed to the verifier, earlier ones are neither verified nor counted as dropped")
 	r.Check(looped, funcDisplay(sl)+":handoff-per-report", pos, "the hand-off runs once per accumulated report (inside a loop)",
 		"the hand-off to the background verifier is not performed per report: a batch with several checkpoints produces a single hand-off")
 }
